@@ -342,13 +342,21 @@ def _iso_call(payload):
     return res[1]
 
 
+def _set_warmup(prop):
+    from . import seams
+
+    seams.ZYGOTE_WARMUP = list(getattr(prop, "zygote_warmup", []))
+
+
 def execute(prop: Property, seed: int) -> RunResult:
     if getattr(prop, "isolate_runs", False):
+        _set_warmup(prop)
         return _iso_call({"kind": "generate", "prop": prop.id, "seed": int(seed)})
     return generate_and_run(prop, seed)
 
 
 def execute_replay(prop: Property, universe: dict, cfg: dict, trace: list) -> RunResult:
     if getattr(prop, "isolate_runs", False):
+        _set_warmup(prop)
         return _iso_call({"kind": "replay", "prop": prop.id, "universe": universe, "cfg": cfg, "trace": trace})
     return replay(prop, universe, cfg, trace)
